@@ -192,12 +192,20 @@ def apply_node_op(node, op):
     elif k == 'attr_get_value':       # a hook that looks at the VALUE of a scalar attribute, as the docs' recipes do
         if node.is_mapping() and node.has_attribute(op[1]):
             a = node.get_attribute(op[1])
-            # get_value() is documented for scalars whose type is_scalar(type) confirms (a timestamp is none of them)
-            if any(a.is_scalar(t) for t in (str, int, float, bool, None)):
+            # "Use is_scalar() to check which type the node has": the untyped is_scalar() is True for every scalar
+            if a.is_scalar():
                 a.get_value()
+    elif k == 'value_roundtrip':      # docs/examples/savorizing.py: read a scalar attribute, write it back converted
+        if node.is_mapping() and node.has_attribute(op[1]):
+            a = node.get_attribute(op[1])
+            if any(a.is_scalar(t) for t in (str, int, float, bool, None)):
+                node.set_attribute(op[1], a.get_value())
+    elif k == 'scalar_get_value':     # parsed-class style: the node itself is a scalar
+        if node.is_scalar():
+            node.set_value(node.get_value())
     elif k == 'attr_has_type':
-        if node.is_mapping():
-            node.has_attribute_type(op[1], {'int': int, 'str': str, 'float': float, 'bool': bool, 'list': list, 'dict': dict}[op[2]])
+        # no mapping precondition is documented: "True iff the attribute exists and matches the type"
+        node.has_attribute_type(op[1], {'int': int, 'str': str, 'float': float, 'bool': bool, 'list': list, 'dict': dict}[op[2]])
     elif k == 'stamp':
         # C10: leave a visible mark of this call on the mapping: the n-th stamp of its family (s_ / w_) gets the
         # value n; a second call of the same hook on the same node adds 100
@@ -311,6 +319,8 @@ def build(spec):
                 ann = ''
                 if ptype != 'untyped':
                     g['__T'][pname] = type_of(b, ptype)
+                    if ptype == 'none' and c.get('none_literal'):
+                        g['__T'][pname] = None      # annotated `-> None` style: the literal None (PEP 484: means NoneType)
                     ann = ': __T[%r]' % pname
                 if len(p) > 2:
                     g['__D%d' % i] = p[2]
